@@ -1809,3 +1809,156 @@ class Repeat(_SmallSeedCheck):
 
 
 SUBCHECKS["repeat"] = Repeat()
+
+
+# =====================================================================================================================
+# polyphase_threads: the DATA FLOW of the worker branch of solve_polyphase_instance equals the sequential branch
+# =====================================================================================================================
+class PolyphaseThreads(SubCheck):
+    """`whatshap polyphase --threads N`: blocks are handed to a process pool largest first and the block results are put back
+    into genomic order before they are aggregated.  What a symbolic executor can decide about this is the data flow: with the
+    pool replaced by a synchronous stand-in (every job runs when submitted; results are fetched through their handles) the
+    aggregated result for threads = 2, 3 must be the one of threads = 1 - for solver-chosen block layouts and block results.
+    Which worker finishes first is not modelled (not applicable, see DESIGN 9.7)."""
+
+    name = "polyphase_threads"
+    encoded = ["whatshap.polyphase.algorithm.solve_polyphase_instance (both branches)", "phase_single_block_mt", "aggregate_results"]
+    sources = ["whatshap/polyphase/algorithm.py", "whatshap/polyphase/__init__.py"]
+    stubs = ["multiprocessing.Pool -> synchronous stand-in (apply_async runs the job at once and returns a handle with get())", "compute_block_starts -> solver-chosen block layout",
+             "phase_single_block -> contract stub: the block's result (clusters, threads, haplotypes, breakpoints) is a function of the block's interval and of solver-chosen bits; AlleleMatrix -> interval token",
+             "replay: the real module with the same stand-ins patched in (real PolyphaseBlockResult / PhaseBreakpoint classes)"]
+    assumptions = ["a block's result depends on the block only (phase_single_block reads nothing else) and worker processes return what they computed; order of completion is irrelevant to the code as written because results are collected through their handles"]
+    required_cover = ["a later block is larger than an earlier one", "singleton block", "three blocks", "block with a breakpoint"]
+
+    def shapes(self, tier):
+        lay = [[2, 3], [3, 2], [1, 2, 3], [2, 1, 3], [1, 3, 2], [2, 2], [1, 1, 2]]
+        if tier != "quick":
+            lay += [[1, 2, 3, 4], [4, 1, 3, 2], [3, 3, 1, 2], [2, 4, 3]]
+        return [dict(sizes=s, threads=t) for s in lay for t in (2, 3)]
+
+    def bounds(self, tier):
+        return "block layouts %s (variants per block, genomic order), ploidy 2-3 (solver-chosen), threads 2 and 3 against 1; per block solver-chosen haplotype alleles, one optional breakpoint, cluster ids" % sorted({tuple(s["sizes"]) for s in self.shapes(tier)})
+
+    def setup(self):
+        from vf import build
+        from vf.models import core_model
+
+        build.prepare_repo()
+        import whatshap.align, whatshap._variants, whatshap.readselect, whatshap.priorityqueue, whatshap.polyphase.solver  # noqa: E401
+        import whatshap.polyphase.algorithm as r_alg
+        import whatshap.polyphase as r_pp
+
+        ov = {"whatshap.core": core_model, "whatshap.polyphase.solver": sys.modules["whatshap.polyphase.solver"]}
+        for n in ("align", "_variants", "readselect", "priorityqueue"):
+            ov["whatshap." + n] = sys.modules["whatshap." + n]
+        w = SymWorld(overrides=ov)
+        self._sym = (w.load("whatshap.polyphase.algorithm"), w.load("whatshap.polyphase"))
+        self._real = (r_alg, r_pp)
+
+    def sym_impl(self):
+        return self._sym
+
+    def real_impl(self):
+        return self._real
+
+    def harness(self, e, shape, impl):
+        alg, pp = impl
+        sizes = shape["sizes"]
+        starts = [sum(sizes[:i]) for i in range(len(sizes))]
+        nvar = sum(sizes)
+        ploidy = e.choice("ploidy", [2, 3])
+        if any(b > a for a, b in zip(sizes, sizes[1:])):
+            e.cover("a later block is larger than an earlier one")
+        if 1 in sizes:
+            e.cover("singleton block")
+        if len(sizes) >= 3:
+            e.cover("three blocks")
+        # contract stub of the per-block solver: a function of the interval
+        bits = {}
+        for bi, (st, n) in enumerate(zip(starts, sizes)):
+            flip = e.bit("h_%d" % bi)  # the block's haplotypes: a pattern that identifies the block, solver-chosen polarity
+            bits[st] = dict(hap=[[(st + k + p + flip) % 2 for k in range(n)] for p in range(ploidy)], bp=(e.bit("bp_%d" % bi) if n >= 2 else 0), nclust=1 + (e.bit("cl_%d" % bi) if n >= 2 else 0))
+            if bits[st]["bp"]:
+                e.cover("block with a breakpoint")
+
+        class Matrix:
+            def __init__(s, lo, hi):
+                s.lo, s.hi = lo, hi
+
+            def getPositions(s):
+                return list(range(s.lo, s.hi))
+
+            def getNumPositions(s):
+                return s.hi - s.lo
+
+            def __len__(s):
+                return 3
+
+            def extractInterval(s, a, b):
+                return Matrix(s.lo + a, s.lo + b)
+
+        def block_solver(block_id, submatrix, genotypes, prephasing, param, timers, quiet=False):
+            b = bits[submatrix.lo]
+            n = submatrix.hi - submatrix.lo
+            clustering = [[submatrix.lo * 10 + c] for c in range(b["nclust"])]
+            threads = [[(k + p) % b["nclust"] for p in range(ploidy)] for k in range(n)]
+            bps = [pp.PhaseBreakpoint(1, [0, 1], -1.0)] if b["bp"] else []
+            return pp.PolyphaseBlockResult(block_id, clustering, threads, [list(h) for h in b["hap"]], bps)
+
+        class Handle:
+            def __init__(s, v):
+                s.v = v
+
+            def get(s, timeout=None):
+                return s.v
+
+        class Pool:
+            def __init__(s, processes=None, *a, **k):
+                pass
+
+            def __enter__(s):
+                return s
+
+            def __exit__(s, *a):
+                return False
+
+            def apply_async(s, fn, args=(), kwds=None):
+                return Handle(fn(*args, **(kwds or {})))
+
+        class Timers:
+            def start(s, n):
+                pass
+
+            def stop(s, n):
+                pass
+
+        saved = {k: alg.__dict__.get(k) for k in ("compute_block_starts", "phase_single_block", "Pool")}
+        alg.compute_block_starts = lambda am, pl, single_linkage=False: list(starts)
+        alg.phase_single_block = block_solver
+        alg.Pool = Pool
+        genotypes = [{0: 1, 1: ploidy - 1} for _ in range(nvar)]
+        try:
+            def run(threads):
+                param = pp.PolyphaseParameter(ploidy=ploidy, ce_bundle_edges=False, distrust_genotypes=False, min_overlap=2, block_cut_sensitivity=4, plot_clusters=False, plot_threading=False, threads=threads, use_prephasing=False)
+                r = alg.solve_polyphase_instance(Matrix(0, nvar), genotypes, param, Timers(), None, quiet=True)
+                return dict(clustering=r.clustering, threads=r.threads, haplotypes=r.haplotypes, breakpoints=[(b.position, list(b.haplotypes), b.confidence) for b in r.breakpoints])
+
+            seq = run(1)
+            par = run(shape["threads"])
+        finally:
+            for k, v in saved.items():
+                alg.__dict__[k] = v
+        e.out("sequential", seq)
+        e.out("parallel", par)
+        # the sequential result is what the statement's "same result" refers to; sanity: it is the blocks in genomic order
+        want_h = [sum((bits[st]["hap"][p] for st in starts), []) for p in range(ploidy)]
+        info = lambda: dict(block_sizes=sizes, ploidy=ploidy, threads=shape["threads"], sequential=e.value(seq), with_workers=e.value(par))
+        e.check(seq["haplotypes"] == want_h, "threads=1: the aggregated haplotypes are not the block results in genomic order", info)
+        for k in ("haplotypes", "breakpoints", "threads", "clustering"):
+            e.check(seq[k] == par[k], "polyphase: %s differ between --threads 1 and --threads %d (block results put together in another order)" % (k, shape["threads"]), info)
+
+    def classify(self, shape, v):
+        return "polyphase_threads:%s" % v["msg"][:70]
+
+
+SUBCHECKS["polyphase_threads"] = PolyphaseThreads()
